@@ -11,6 +11,7 @@ func init() {
 			Harness{Fn: "ZZC18Write", Quick: p("K", 8), Thorough: p("K", 10), Expect: []string{"clean-run", "unparsable", "fault", "killed", "witness:end"}},
 			Harness{Fn: "ZZC18Check", Expect: []string{"witness:end"}},
 			Harness{Fn: "ZZC07CheckFiles", Quick: p("FILES", 2), Thorough: p("FILES", 3), Expect: []string{"files-ok", "files-unformatted", "witness:end"}},
+			Harness{Fn: "ZZC07Stdin", Expect: []string{"stdin-unparsable", "stdin-formatted", "stdin-checked", "witness:end"}},
 		)},
 		Assumptions: []string{
 			"ZZC07CheckFiles: evy fmt -c over 1..FILES files (plain and txtar) in every order",
